@@ -1,3 +1,4 @@
+import Snel.Gen.C08
 /-!
 Models of the remaining per-zone pruning structures (C08):
 
@@ -19,6 +20,7 @@ with the same result; the `ebm`, `zti` and `cal` streams compare the results wit
 structures for equality.
 -/
 namespace Snel.C08
+open Snel.Gen.C08
 
 /-! ## sorted, duplicate-free lists (`sort_unstable(); dedup()`, roaring iteration order) -/
 
@@ -115,13 +117,33 @@ def Zti.ofTimestamps (ts : List Int) (stride : Int) : Zti :=
   let mx := s.getLast?.getD 0
   { minTs := mn, maxTs := mx, stride := stride, keys := s.map (ztiKey mn stride) }
 
-/-- `contains_ts`; `binary_search(..).is_ok()` on the sorted key vector is membership. -/
+/-- Loop of `slice::binary_search_by` (std of the pinned toolchain): no early exit, `base`
+moves to `mid` unless the element there is greater than the key. -/
+def bsLoop (keys : Array Nat) (key : Nat) : Nat → Nat → Nat → Nat
+  | 0, base, _ => base
+  | fuel + 1, base, size =>
+    if size > 1 then
+      let half := size / 2
+      let mid := base + half
+      bsLoop keys key fuel (if keys.getD mid 0 > key then base else mid) (size - half)
+    else base
+
+/-- `keys.binary_search(&key).is_ok()`. On a sorted vector this is membership; the key vector is
+sorted unless `t - min_ts` wrapped (instants more than `2^63` apart in one zone), and then the
+answer is whatever the loop happens to reach — modelled step by step for that reason. -/
+def bsearchOk (keys : List Nat) (key : Nat) : Bool :=
+  if keys.isEmpty then false
+  else
+    let a := keys.toArray
+    a.getD (bsLoop a key keys.length 0 keys.length) 0 == key
+
+/-- `contains_ts`. -/
 def Zti.containsTs (z : Zti) (ts : Int) : Bool :=
   if ts < z.minTs || ts > z.maxTs then false
   else
     let off := wrapI64 (ts - z.minTs)
     if z.stride > 1 && Int.tmod off z.stride != 0 then false
-    else z.keys.contains (max (Int.tdiv off z.stride) 0).toNat
+    else bsearchOk z.keys (max (Int.tdiv off z.stride) 0).toNat
 
 /-- `may_match`. -/
 def Zti.mayMatch (z : Zti) (op : Op) (v : Int) : Bool :=
@@ -152,11 +174,11 @@ instance (op : Op) (t v : Int) : Decidable (opHolds op t v) := by
 
 /-! ## calendar -/
 
-def hourOf (ts : Nat) : Nat := ts / 3600 * 3600
-def dayOf (ts : Nat) : Nat := ts / 86400 * 86400
+def hourOf (ts : Nat) : Nat := ts / hourSecs * hourSecs
+def dayOf (ts : Nat) : Nat := ts / daySecs * daySecs
 
 /-- `bucket_id`: the bucket start truncated to 32 bits. -/
-def bucketId (start : Nat) : Nat := start % 2 ^ 32
+def bucketId (start : Nat) : Nat := start % 2 ^ bucketIdBits
 
 /-- Bucket ids `add_zone_range` registers for one zone: from the bucket of `min` in steps of
 `step` while `t <= bucket(max)`. -/
@@ -174,14 +196,14 @@ structure Reg where
 
 /-- Members of the bitmap stored under hour bucket `b` (empty = no map entry). -/
 def hourZones (regs : List Reg) (b : Nat) : List Nat :=
-  sortDedupN ((regs.filter fun r => (bucketsOf 3600 r.mn r.mx).contains b).map (·.zone))
+  sortDedupN ((regs.filter fun r => (bucketsOf hourSecs r.mn r.mx).contains b).map (·.zone))
 
 def dayZones (regs : List Reg) (b : Nat) : List Nat :=
-  sortDedupN ((regs.filter fun r => (bucketsOf 86400 r.mn r.mx).contains b).map (·.zone))
+  sortDedupN ((regs.filter fun r => (bucketsOf daySecs r.mn r.mx).contains b).map (·.zone))
 
 /-- Union of the day bitmaps whose bucket id satisfies `p`. -/
 def dayUnion (regs : List Reg) (p : Nat → Bool) : List Nat :=
-  sortDedupN ((regs.filter fun r => (bucketsOf 86400 r.mn r.mx).any p).map (·.zone))
+  sortDedupN ((regs.filter fun r => (bucketsOf daySecs r.mn r.mx).any p).map (·.zone))
 
 /-- `zones_for_ts`: hour bitmap if the hour bucket exists, else day bitmap, else empty. -/
 def zonesForTs (regs : List Reg) (ts : Nat) : List Nat :=
